@@ -61,9 +61,9 @@ __CPROVER_ensures(g_k < v->_constructed_size ==> v->_data[g_k] == g_old_k)
 __CPROVER_ensures(g_k2 < v->_constructed_size ==> v->_data[g_k2] == g_old_k2)
 ;
 //@loop Vec_reserve 1
-//@  __CPROVER_assigns(@l2@, __CPROVER_object_whole(@l1@))
-//@  __CPROVER_loop_invariant(@l2@ <= self->_constructed_size && (g_k < @l2@ ==> @l1@[g_k] == g_old_k) && (g_k2 < @l2@ ==> @l1@[g_k2] == g_old_k2))
-//@  __CPROVER_decreases(self->_constructed_size - @l2@)
+//@  __CPROVER_assigns(@l2:i@, __CPROVER_object_whole(@l1:new_data@))
+//@  __CPROVER_loop_invariant(@l2:i@ <= self->_constructed_size && (g_k < @l2:i@ ==> @l1:new_data@[g_k] == g_old_k) && (g_k2 < @l2:i@ ==> @l1:new_data@[g_k2] == g_old_k2))
+//@  __CPROVER_decreases(self->_constructed_size - @l2:i@)
 //@end
 
 /* emplace_back(x): the view grows by exactly x at the end; nothing else moves; capacity never shrinks */
@@ -87,18 +87,18 @@ __CPROVER_ensures(n <= g_cap0 ==> KEEPS(v))
 __CPROVER_ensures(v->_constructed_size == MAXU(__CPROVER_old(v->_constructed_size), n))
 ;
 //@loop Vec_resize__u64 1
-//@  __CPROVER_assigns(@l2@, __CPROVER_object_whole(self->_data))
-//@  __CPROVER_loop_invariant(self->_size <= @l2@ && @l2@ <= @l1@)
+//@  __CPROVER_assigns(@l2:i@, __CPROVER_object_whole(self->_data))
+//@  __CPROVER_loop_invariant(self->_size <= @l2:i@ && @l2:i@ <= @l1:reconstruct_end_size@)
 //@  __CPROVER_loop_invariant((g_k < self->_size) ==> self->_data[g_k] == __CPROVER_loop_entry(self->_data[g_k]))
-//@  __CPROVER_loop_invariant((g_k >= self->_size && g_k < @l2@) ==> self->_data[g_k] == 0)
-//@  __CPROVER_decreases(@l1@ - @l2@)
+//@  __CPROVER_loop_invariant((g_k >= self->_size && g_k < @l2:i@) ==> self->_data[g_k] == 0)
+//@  __CPROVER_decreases(@l1:reconstruct_end_size@ - @l2:i@)
 //@end
 //@loop Vec_resize__u64 2
-//@  __CPROVER_assigns(@l3@, self->_constructed_size, __CPROVER_object_whole(self->_data))
-//@  __CPROVER_loop_invariant(@l1@ <= @l3@ && @l3@ <= @p1@ && self->_constructed_size == __CPROVER_loop_entry(self->_constructed_size) + (@l3@ - @l1@))
-//@  __CPROVER_loop_invariant((g_k < @l1@) ==> self->_data[g_k] == __CPROVER_loop_entry(self->_data[g_k]))
-//@  __CPROVER_loop_invariant((g_k >= @l1@ && g_k < @l3@) ==> self->_data[g_k] == 0)
-//@  __CPROVER_decreases(@p1@ - @l3@)
+//@  __CPROVER_assigns(@l3:i_2@, self->_constructed_size, __CPROVER_object_whole(self->_data))
+//@  __CPROVER_loop_invariant(@l1:reconstruct_end_size@ <= @l3:i_2@ && @l3:i_2@ <= @p1:count@ && self->_constructed_size == __CPROVER_loop_entry(self->_constructed_size) + (@l3:i_2@ - @l1:reconstruct_end_size@))
+//@  __CPROVER_loop_invariant((g_k < @l1:reconstruct_end_size@) ==> self->_data[g_k] == __CPROVER_loop_entry(self->_data[g_k]))
+//@  __CPROVER_loop_invariant((g_k >= @l1:reconstruct_end_size@ && g_k < @l3:i_2@) ==> self->_data[g_k] == 0)
+//@  __CPROVER_decreases(@p1:count@ - @l3:i_2@)
 //@end
 
 /* erase(first, last): the view loses exactly [first, last); everything behind moves down by last - first; nothing acquired is given up */
@@ -112,14 +112,14 @@ __CPROVER_ensures((g_k < (size_t)(first - g_data)) ==> v->_data[g_k] == g_old_k)
 __CPROVER_ensures((g_k >= (size_t)(first - g_data) && g_k < v->_size) ==> v->_data[g_k] == g_old_k2)
 ;
 //@loop Vec_erase__i64P_i64P 1
-//@  VF_REBASE(@l1@, g_data)
-//@  VF_REBASE(@l2@, g_data)
-//@  __CPROVER_assigns(@l1@, @l2@, __CPROVER_object_whole(g_data))
-//@  __CPROVER_loop_invariant(__CPROVER_same_object(@l2@, g_data) && __CPROVER_same_object(@l1@, g_data) && (size_t)__CPROVER_POINTER_OFFSET(@l2@) <= self->_size * sizeof(long) && (size_t)__CPROVER_POINTER_OFFSET(@l2@) % sizeof(long) == 0 && (size_t)__CPROVER_POINTER_OFFSET(@l1@) % sizeof(long) == 0 && (size_t)__CPROVER_POINTER_OFFSET(@l1@) <= self->_size * sizeof(long))
-//@  __CPROVER_loop_invariant(@p2@ <= @l2@ && (size_t)(@l2@ - @l1@) == (size_t)(@p2@ - @p1@) && @p1@ <= @l1@)
-//@  __CPROVER_loop_invariant((g_k < (size_t)(@p1@ - g_data)) ==> g_data[g_k] == g_old_k)
-//@  __CPROVER_loop_invariant((g_k >= (size_t)(@p1@ - g_data) && g_k < (size_t)(@l1@ - g_data)) ==> g_data[g_k] == g_old_k2)
-//@  __CPROVER_loop_invariant((g_k2 >= (size_t)(@l2@ - g_data) && g_k2 < self->_size) ==> g_data[g_k2] == g_old_k2)
+//@  VF_REBASE(@l1:dest@, g_data)
+//@  VF_REBASE(@l2:src@, g_data)
+//@  __CPROVER_assigns(@l1:dest@, @l2:src@, __CPROVER_object_whole(g_data))
+//@  __CPROVER_loop_invariant(__CPROVER_same_object(@l2:src@, g_data) && __CPROVER_same_object(@l1:dest@, g_data) && (size_t)__CPROVER_POINTER_OFFSET(@l2:src@) <= self->_size * sizeof(long) && (size_t)__CPROVER_POINTER_OFFSET(@l2:src@) % sizeof(long) == 0 && (size_t)__CPROVER_POINTER_OFFSET(@l1:dest@) % sizeof(long) == 0 && (size_t)__CPROVER_POINTER_OFFSET(@l1:dest@) <= self->_size * sizeof(long))
+//@  __CPROVER_loop_invariant(@p2:last@ <= @l2:src@ && (size_t)(@l2:src@ - @l1:dest@) == (size_t)(@p2:last@ - @p1:first@) && @p1:first@ <= @l1:dest@)
+//@  __CPROVER_loop_invariant((g_k < (size_t)(@p1:first@ - g_data)) ==> g_data[g_k] == g_old_k)
+//@  __CPROVER_loop_invariant((g_k >= (size_t)(@p1:first@ - g_data) && g_k < (size_t)(@l1:dest@ - g_data)) ==> g_data[g_k] == g_old_k2)
+//@  __CPROVER_loop_invariant((g_k2 >= (size_t)(@l2:src@ - g_data) && g_k2 < self->_size) ==> g_data[g_k2] == g_old_k2)
 //@end
 
 /* prepare_for_insert(index, count): opens a gap of count elements at index: elements before index stay, elements from index on move
@@ -138,18 +138,18 @@ __CPROVER_ensures((g_k2 >= index && g_k2 < __CPROVER_old(v->_size)) ==> v->_data
 __CPROVER_ensures(__CPROVER_old(v->_size) + count <= g_cap0 ==> KEEPS(v))
 ;
 //@loop Vec_prepare_for_insert 1
-//@  __CPROVER_assigns(@l3@, self->_constructed_size, __CPROVER_object_whole(self->_data))
-//@  __CPROVER_loop_invariant(@l3@ <= self->_size + @p2@ && (@l1@ <= @l3@ || @l3@ == self->_size + @p2@) && self->_constructed_size == __CPROVER_loop_entry(self->_constructed_size) + (self->_size + @p2@ - @l3@))
-//@  __CPROVER_loop_invariant((g_k2 < @l3@ && g_k2 < self->_size) ==> self->_data[g_k2] == g_old_k2)
-//@  __CPROVER_loop_invariant((g_k >= @l3@ && g_k < self->_size + @p2@ && g_k2 >= @p1@) ==> self->_data[g_k] == g_old_k2)
-//@  __CPROVER_decreases(@l3@)
+//@  __CPROVER_assigns(@l3:i@, self->_constructed_size, __CPROVER_object_whole(self->_data))
+//@  __CPROVER_loop_invariant(@l3:i@ <= self->_size + @p2:count@ && (@l1:move_end_size@ <= @l3:i@ || @l3:i@ == self->_size + @p2:count@) && self->_constructed_size == __CPROVER_loop_entry(self->_constructed_size) + (self->_size + @p2:count@ - @l3:i@))
+//@  __CPROVER_loop_invariant((g_k2 < @l3:i@ && g_k2 < self->_size) ==> self->_data[g_k2] == g_old_k2)
+//@  __CPROVER_loop_invariant((g_k >= @l3:i@ && g_k < self->_size + @p2:count@ && g_k2 >= @p1:index@) ==> self->_data[g_k] == g_old_k2)
+//@  __CPROVER_decreases(@l3:i@)
 //@end
 //@loop Vec_prepare_for_insert 2
-//@  __CPROVER_assigns(@l4@, __CPROVER_object_whole(self->_data))
-//@  __CPROVER_loop_invariant(@p1@ + @p2@ <= @l4@ && @l4@ <= @l1@)
-//@  __CPROVER_loop_invariant((g_k2 < @l4@ && g_k2 < self->_size) ==> self->_data[g_k2] == g_old_k2)
-//@  __CPROVER_loop_invariant((g_k >= @l4@ && g_k < self->_size + @p2@ && g_k2 >= @p1@) ==> self->_data[g_k] == g_old_k2)
-//@  __CPROVER_decreases(@l4@)
+//@  __CPROVER_assigns(@l4:i_2@, __CPROVER_object_whole(self->_data))
+//@  __CPROVER_loop_invariant(@p1:index@ + @p2:count@ <= @l4:i_2@ && @l4:i_2@ <= @l1:move_end_size@)
+//@  __CPROVER_loop_invariant((g_k2 < @l4:i_2@ && g_k2 < self->_size) ==> self->_data[g_k2] == g_old_k2)
+//@  __CPROVER_loop_invariant((g_k >= @l4:i_2@ && g_k < self->_size + @p2:count@ && g_k2 >= @p1:index@) ==> self->_data[g_k] == g_old_k2)
+//@  __CPROVER_decreases(@l4:i_2@)
 //@end
 
 /* emplace(pos, x): the view gets x at pos, everything from pos on moves up by one */
